@@ -1004,6 +1004,9 @@ def gen_c03(rng, n, tier):
                 # any position
                 others = [g.tx_xfer() for _ in range(r.randint(1, 10))]
                 pos = r.randint(0, len(others))
+                # (first the executor's proof-verification fan-out alone over the very transactions of the block — compared with the
+                # Lean model of the fan-out, `Bxh.ProofGroups.verifyProofs` —, then the block itself)
+                g.ops.append("q proofs " + " | ".join(others[:pos] + [" ".join(ws)] + others[pos:]))
                 g.ops.append("block " + " | ".join(others[:pos] + [" ".join(ws)] + others[pos:]))
                 tags.add("proof-in-a-full-block:" + ws[8] + (":last" if pos == len(others) else ":not-last"))
             else:
